@@ -586,8 +586,11 @@ Definition alldiff_conflict (s : store) (p : rdesc) : bool :=
   end.
 Fixpoint has_dup (xs : list nat) : bool :=
   match xs with [] => false | x :: r => existsb (Nat.eqb x) r || has_dup r end.
-(* validate_constraint_parameters (InvalidConstraint) *)
-Definition bad_params (s : store) (p : rdesc) : bool :=
+(* validate_constraint_parameters (InvalidConstraint).
+   BEFORE the repair d12_validation_operands (finding D12): the Addition | Multiplication arm demanded 2-3 registered VARIABLES
+   (add / sub / mul of two constants registers only the result), the Division | Modulo arm exactly 3 registered variables (a
+   constant dividend or divisor registers none) and looked for the divisor at variables[1]. *)
+Definition bad_params_prefix (s : store) (p : rdesc) : bool :=
   match p with
   | PAllDiff xs => has_dup xs
   | PB (PAdd x y r) | PB (PMul x y r) => Nat.ltb (length (reg_vars3 x y r)) 2
@@ -597,12 +600,34 @@ Definition bad_params (s : store) (p : rdesc) : bool :=
     else match nth_error vs 1 with Some d => memZ 0 (sget s d) | None => false end
   | _ => false
   end.
+(* AFTER it (the current tree): both arms count OPERANDS (ConstraintData::NAry always records x, y and the result: never
+   rejected on that account) and accept 1-3 variables; the divisor is the SECOND OPERAND (Propagators::analyze_view: a view with
+   an underlying variable is recorded as that variable, any other view as the constant it evaluates to): a variable whose domain
+   contains 0, or the constant 0, is rejected ("divisor that can be zero"). *)
+Definition divisor_can_be_zero (s : store) (y : view) : bool :=
+  match uvar y with
+  | Some d => memZ 0 (sget s d)
+  | None => vsem y (fun _ => 0) =? 0
+  end.
+Definition bad_params (s : store) (p : rdesc) : bool :=
+  match p with
+  | PAllDiff xs => has_dup xs
+  | PB (PMod x y r) => divisor_can_be_zero s y
+  | _ => false
+  end.
+Definition rvalidate_with (bad : store -> rdesc -> bool) (s : store) (ps : list rdesc) : option rverr_t :=
+  if existsb dempty s then Some VInvalidDomain
+  else if existsb (fun d => Selen.Generated.Consts.max_sparse_set_domain_size <? dmax d - dmin d + 1) s then Some VInvalidDomain
+  else if existsb (alldiff_conflict s) ps then Some VConflicting
+  else if existsb (bad s) ps then Some VInvalidConstraint
+  else None.
 Definition rvalidate (s : store) (ps : list rdesc) : option rverr_t :=
   if existsb dempty s then Some VInvalidDomain
   else if existsb (fun d => Selen.Generated.Consts.max_sparse_set_domain_size <? dmax d - dmin d + 1) s then Some VInvalidDomain
   else if existsb (alldiff_conflict s) ps then Some VConflicting
   else if existsb (bad_params s) ps then Some VInvalidConstraint
   else None.
+Definition rvalidate_prefix (s : store) (ps : list rdesc) : option rverr_t := rvalidate_with bad_params_prefix s ps.
 
 (* ------------------------------------------------------------------------------------------ *)
 (* SPECIFICATION: the documented meaning of each call (Appendix A).  Variables are whatever index
